@@ -72,7 +72,7 @@ check("C15", "exploration", "runtime self-differential monitor over histories an
 check("C13", "exploration", "runtime self-differential monitor over cache configurations + online reparse hook with the result cache disabled",
       "Held on every generated (rich schema, multi-record input) (quick 1500, thorough 6e4 schemas x 5 configurations + online K5): transcripts with the node "
       "pool off, javascript caches off, every LRU at capacity one, everything emptied after every Read, and re-evaluation of each live record with "
-      "the per-record result cache disabled are byte-identical to all-caches-on.",
+      "the per-record result cache disabled are byte-identical to all-caches-on. One recorded known finding (a cached map shared with a script that writes into it).",
       "Switches are process-global and restored after each case. VerifReparse uses the real ParseNode.",
       "DESIGN.md section 3 C13")
 
